@@ -19,7 +19,8 @@ WORKERS = {"quick": 4, "thorough": 16}
 WTESTS = {"groups": ['descriptor_format'], "tests": ['tests/utils', 'tests/decay']}
 REQUIRED = {"nesting-depth>=3": 50, "reused-object-sequentially": 50, "reentrant-object": 50, "object-created-before-set_config": 50,
             "leave-by-exception-at-depth>=2": 50, "enter-invalid-context": 50, "render": 500,
-            **{f"invalid:{k}": 20 for k in ("missing-mother", "missing-daughters", "extra-named", "positional", "attribute", "index", "nested-in-spec", "second-only")},
+            "valid-pattern-with-repeated-placeholder": 20,
+            **{f"invalid:{k}": 20 for k in ("missing-mother", "missing-daughters", "extra-named", "positional", "attribute", "index", "nested-in-spec", "second-only", "repeated-mother-no-daughters", "repeated-daughters-no-mother", "repeat-inside-spec-no-daughters")},
             "C14.exit.restores_entry_format": 500, "C14.set_config.rejected_leaves_format": 500}
 EXHAUSTIVE_NOTE = "every well-nested history over the reduced alphabet {N,E,F,L,X,V,I,B,R} of length exactly L (7 quick, 8 thorough) -- all shorter ones are prefixes"
 ASSUMPTIONS = ["only with-shaped (well-nested) enter/leave sequences, as `with` can produce", "process-wide format is reset to the default between histories"]
@@ -31,6 +32,7 @@ VALID = [
     ("{mother!s} : {daughters:>3}", "{{{mother} : {daughters}}}"),
     ("{daughters} <- {mother}", "({daughters} <- {mother})"),
     DEFAULT,
+    ("{mother} -> {daughters} [of {mother}]", "({mother} -> {daughters}; {daughters})"),   # both placeholders, one of them twice: valid
 ]
 INVALID = {
     "missing-mother": ("X -> {daughters}", DEFAULT[1]),
@@ -41,6 +43,10 @@ INVALID = {
     "index": ("{mother[0]} -> {daughters}", DEFAULT[1]),
     "nested-in-spec": ("{mother:{w}} -> {daughters}", DEFAULT[1]),
     "second-only": ("{mother} ~> {daughters}", "({mother} ~> {dots})"),
+    # a placeholder written twice does not stand in for the missing one
+    "repeated-mother-no-daughters": ("{mother} -> {mother}", DEFAULT[1]),
+    "repeated-daughters-no-mother": (DEFAULT[0], "({daughters} {daughters})"),
+    "repeat-inside-spec-no-daughters": ("{mother:>{mother}} x", DEFAULT[1]),
 }
 INV_KEYS = list(INVALID)
 
@@ -66,9 +72,20 @@ class Exec:
         self.ctx = ctx
         self.DF = DescriptorFormat
         self.chain = DecayChain("D0", {"D0": DecayMode(0.5, "K_S0"), "K_S0": DecayMode(0.5, "pi+ pi-")})
+        self.last_hist = []
+
+    def restore_default(self, when):
+        """Between histories the process-wide format goes back to the default; a library that refuses the default
+        patterns (valid by the property) has been poisoned by the history before: that is a verdict, not a harness error."""
+        try:
+            self.DF.set_config(*DEFAULT)
+        except Exception as e:  # noqa: BLE001
+            self.ctx.violate("set_config:valid-pattern-rejected:" + when, f"set_config{DEFAULT!r} raised {type(e).__name__}: {e}",
+                             {"kind": "history", "ops": self.last_hist})
+            self.DF.config = {"decay_pattern": DEFAULT[0], "sub_decay_pattern": DEFAULT[1]}   # the documented class-level variable
 
     def reset(self):
-        self.DF.set_config(*DEFAULT)
+        self.restore_default("before-history")
         contracts.SHADOW.clear()
         contracts.drain()
         self.m = Model()
@@ -81,6 +98,8 @@ class Exec:
     def step(self, op, hist, i):
         m, DF = self.m, self.DF
         k = op[0]
+        if k in ("new", "set") and op[1] == len(VALID) - 1:
+            self.ctx.hit("valid-pattern-with-repeated-placeholder")
         if k == "new":
             m.objs.append(VALID[op[1]])
             self.real.append(DF(*VALID[op[1]]))
@@ -156,7 +175,8 @@ class Exec:
         for v in contracts.drain():
             self.ctx.violate(v["mechanism"], v["message"], {"kind": "history", "ops": hist})
         # unwind whatever is still entered, then restore the default
-        self.DF.set_config(*DEFAULT)
+        self.last_hist = hist
+        self.restore_default("after-history")
 
 
 def reduced_ops(model_state):
